@@ -19,7 +19,7 @@ pub struct HTLCSource { pub id: u64 }
 impl Clone for HTLCSource { #[verifier::external_body] fn clone(&self) -> (r: Self) ensures r == *self { unimplemented!() } }
 pub struct FundingScope { pub current_counterparty_commitment_txid: Option<Txid>, pub prev_counterparty_commitment_txid: Option<Txid> }
 pub struct HTLCOutputInCommitment { pub offered: bool, pub amount_msat: u64, pub cltv_expiry: u32, pub payment_hash: PaymentHash, pub transaction_output_index: Option<u32> }
-//@const lightning/src/chain/channelmonitor.rs LATENCY_GRACE_PERIOD_BLOCKS
+//@const lightning/src/chain/channelmonitor.rs CLTV_CLAIM_BUFFER MAX_BLOCKS_FOR_CONF LATENCY_GRACE_PERIOD_BLOCKS HTLC_FAIL_BACK_BUFFER ANTI_REORG_DELAY
 //@extract lightning/src/chain/channelmonitor.rs :: struct HTLCUpdate
 //@end
 //@extract lightning/src/chain/channelmonitor.rs :: impl ChannelMonitorImpl :: fn block_confirmed
@@ -53,6 +53,10 @@ pub struct HTLCOutputInCommitment { pub offered: bool, pub amount_msat: u64, pub
     height.saturating_add(LATENCY_GRACE_PERIOD_BLOCKS)
 //@with
     height.saturating_sub(LATENCY_GRACE_PERIOD_BLOCKS)
+//@mutant forwarded_htlc_given_up_a_fail_back_buffer_before_the_upstream_expiry
+    height.saturating_add(LATENCY_GRACE_PERIOD_BLOCKS)
+//@with
+    height.saturating_add(HTLC_FAIL_BACK_BUFFER)
 //@end
 //@extract lightning/src/chain/channelmonitor.rs :: impl ChannelMonitorImpl :: fn block_confirmed
 //@slice R15 nth=2
